@@ -225,6 +225,20 @@ func init() {
 						time.Sleep(time.Until(created.Add(ttl + 300*time.Millisecond))) // the ID token expires while we wait
 					}
 					waitStale(created, sc.jitter)
+					if sc.kind == "once" && si%2 == 1 {
+						// an identity provider that takes a moment to answer (well within the 2 s refresh lock): the lock must hold for
+						// the whole refresh, so the waiting requests still cause no second grant
+						e.idp.mu.Lock()
+						e.idp.fault = func(ep string, n int, w http.ResponseWriter, r *http.Request) bool {
+							if ep == "/token" {
+								time.Sleep(250 * time.Millisecond)
+							}
+							return false
+						}
+						e.idp.mu.Unlock()
+						in["idp_token_latency_ms"] = 250
+						c.count("scenario:once-slow-idp")
+					}
 					cookie := b.cookieHeader()
 					fireStart := time.Now()
 					res := e.fire(sc.n, cookie)
@@ -339,7 +353,7 @@ func init() {
 			wg.Wait()
 		}
 		c.close([]string{"scenario:once", "scenario:keep-old", "scenario:reject", "scenario:cookie-ok", "scenario:cookie-reject",
-			"concurrency:2", "concurrency:16", "scenario:twice-noid", "scenario:nort-invalid", "scenario:nort-valid"})
+			"concurrency:2", "concurrency:16", "scenario:twice-noid", "scenario:nort-invalid", "scenario:nort-valid", "scenario:once-slow-idp"})
 	})
 }
 
